@@ -47,6 +47,11 @@ def generate(rng, tier, index):
         triples = gen.gen_graph(rng, n_nodes=n_nodes, n_classes=rng.randint(1, 3), n_props=rng.randint(1, 5), bnodes=bn,
                                 density=rng.choice([0.4, 0.6, 0.9]), same_local_classes=0.08,
                                 kinds=("node", "str", "int", "lang", "date", "iri", "iri2", "cdt", "cdt2"))
+    qualifiers = (not schema) and rng.random() < 0.08
+    if qualifiers:
+        # statement-node style data: properties of one vocabulary lead to nodes that get a shape of their own
+        triples = gen.gen_graph(rng, n_nodes=n_nodes, n_classes=rng.randint(1, 2), n_props=rng.randint(2, 4), bnodes=False,
+                                density=rng.choice([0.6, 0.9]), kinds=("node", "node", "str"), prop_namespaces=(gen.EX, gen.OTHER))
     tp = gen.CUSTOM_TYPE if rng.random() < 0.12 else gen.RDF_TYPE
     triples = gen.retype(gen.ensure_class(triples), tp)
     family = "store" if rng.random() < 0.5 else "document"
@@ -64,6 +69,9 @@ def generate(rng, tier, index):
         options["instantiation_property"] = tp
     if rng.random() < 0.15:
         options["detect_minimal_iri"] = True
+    if qualifiers and "all_classes_mode" in target:
+        options["shape_qualifiers_mode"] = True
+        options["namespaces_for_qualifier_props"] = [gen.OTHER]
     labels = sorted({t[1] for tr in triples for t in (tr[0], tr[2]) if t[0] == "b"})
     relabel = {}
     if labels and rng.random() < 0.8:
